@@ -574,7 +574,7 @@ class ConcurrentBlocks(SubCheck):
         scans = [c for c in calls if c.op[0] == 'list']
         lin = [c for c in calls if c.op[0] != 'list']
         for c in lin:
-            if c.result[0] == 'exc' and c.result[1] not in ('KeyError',) and c.op[0] != 'setbad':
+            if c.result[0] == 'exc' and c.result[1] not in ('KeyError',) and c.op[0] != 'setbad' and not (c.result[1] == 'Timeout' and c.op[-1] == 'nr'):
                 raise Violation('C06/concurrent/unexpected-exception/%s' % c.result[1], 'call %r\n%s' % (c, fmt(calls)))
         block = [c for c in lin if c.op[0] == 'block'][0]
 
@@ -651,7 +651,7 @@ class FanoutConcurrentBlocks(ConcurrentBlocks):
         init_state = c05.init_state_of(case['init'])
         lin = [c for c in calls if c.op[0] != 'list']
         for c in lin:
-            if c.result[0] == 'exc' and c.result[1] not in ('KeyError',) and c.op[0] != 'setbad':
+            if c.result[0] == 'exc' and c.result[1] not in ('KeyError',) and c.op[0] != 'setbad' and not (c.result[1] == 'Timeout' and c.op[-1] == 'nr'):
                 raise Violation('C06/concurrent/unexpected-exception/%s' % c.result[1], 'call %r\n%s' % (c, fmt(calls)))
         # len(FanoutCache) adds up the shards one after the other: under contention it is an aggregate that is not one atomic
         # read even without any block (that is C13's subject), so an overlapped len() of a plain client is not judged here
@@ -740,7 +740,7 @@ class ProcessBlocks(ConcurrentBlocks):
         init_state = c05.init_state_of(case['init'])
         lin = [c for c in calls if c.op[0] != 'list']
         for c in lin:
-            if c.result[0] == 'exc' and c.result[1] not in ('KeyError',) and c.op[0] != 'setbad':
+            if c.result[0] == 'exc' and c.result[1] not in ('KeyError',) and c.op[0] != 'setbad' and not (c.result[1] == 'Timeout' and c.op[-1] == 'nr'):
                 raise Violation('C06/concurrent/unexpected-exception/%s' % c.result[1], 'call %r\n%s' % (c, fmt(calls)))
         block = [c for c in lin if c.op[0] == 'block'][0]
 
